@@ -329,3 +329,43 @@ class CaseWalker:
             out.append(n)
         rec(e)
         return out
+
+
+def observation_only_fields(F, cls):
+    """fields of class `cls` that only count or record: never read except to update themselves (++f, f += c) or in a
+       const accessor that returns them.  Writes to such a field cannot change what the component does."""
+    from .astq import walk, walk_parents
+    rec = F['records'].get(cls)
+    if not rec:
+        return set()
+    names = {fl['name'] for fl in rec['fields']}
+    bad = set()
+    seen = set()
+    for fid, f in F['functions'].items():
+        body = f.get('body')
+        if not isinstance(body, dict):
+            continue
+        stmts = body.get('body', []) if body.get('k') == 'block' else []
+        getter = None
+        if f.get('const') and len(stmts) == 1 and stmts[0].get('k') == 'return':
+            e = stmts[0].get('e')
+            while isinstance(e, dict) and e.get('k') == 'cast':
+                e = e.get('e')
+            if isinstance(e, dict) and e.get('k') == 'mem' and e.get('cls') == cls:
+                getter = e
+        for n, parents in walk_parents(body):
+            if n.get('k') != 'mem' or n.get('cls') != cls or n.get('name') not in names:
+                continue
+            seen.add(n['name'])
+            if n is getter:
+                continue
+            par = parents[-1] if parents else {}
+            while par.get('k') == 'cast' and len(parents) > 1:
+                parents = parents[:-1]
+                par = parents[-1]
+            own_update = (par.get('k') == 'un' and par.get('op') in ('++', '--', 'post++', 'post--') and len(parents) >= 1
+                          and (len(parents) < 2 or parents[-2].get('k') in ('block', 'if', 'for', 'while')))
+            plain_store = par.get('k') == 'assign' and par.get('lhs') is n and par.get('op') in ('=', '+=')
+            if not (own_update or plain_store):
+                bad.add(n['name'])
+    return {n for n in seen if n not in bad}
